@@ -159,6 +159,7 @@ func bcastRandomCase(c *mon.Case) {
 	var asyncCalls, asyncRuns atomic.Int64
 	start := make(chan struct{})
 
+	noisyCase := r.IntN(3) == 0
 	for i := 0; i < nWaiters; i++ {
 		i := i
 		wr := &bcWaitResult{id: i, threshold: 1 + r.IntN(maxGen+3), errAt: -1}
@@ -187,6 +188,7 @@ func bcastRandomCase(c *mon.Case) {
 			wr.errAt, wr.predErr = -1, nil
 		}
 		results[i] = wr
+		noisy := i == 0 && !manual && noisyCase
 		name := fmt.Sprint("w", i)
 		c.Go(name, func() {
 			wt := &bcWaiter{id: i}
@@ -199,8 +201,17 @@ func bcastRandomCase(c *mon.Case) {
 				wr.err = w.b.Wait(wr.ctx, func(bc func(), gw func() <-chan struct{}) (bool, error) {
 					var done bool
 					var err error
-					w.wrap(name, func(_ func(), _ func() <-chan struct{}) {
+					w.wrap(name, func(wbc func(), wgw func() <-chan struct{}) {
 						wr.evals++
+						if noisy && wr.evals == 1 {
+							// a predicate may use what it is handed: fetch the wait channel, broadcast (closing it), fetch again.
+							// The second channel is a fresh, open one. (Only one waiter per case does this, once: two such
+							// predicates would wake each other for ever on any implementation.)
+							wgw()
+							wbc()
+							wgw()
+							c.Count("predicates_using_broadcast_and_getwaitch", 1)
+						}
 						wt.bcastAtEval.Store(w.bcastCount.Load())
 						if wr.errAt >= 0 && w.gen >= wr.errAt {
 							err = wr.predErr
